@@ -199,7 +199,13 @@ func (sc *Scenario) Materialize(root string, resultDir string) ([]string, error)
 				out = append(out, rowText(fr))
 			}
 		}
-		out = append(out, lines[1:]...)
+		for _, l := range lines[1:] {
+			// a row of the project's own under a shipped name replaces the shipped row (the project's formulation of that product)
+			if f := strings.Fields(l); len(f) > 0 && sc.ownFertRow(f[0]) != nil {
+				continue
+			}
+			out = append(out, l)
+		}
 		for k, fr := range sc.OwnFertRows {
 			if !sc.OwnFertFront[k] {
 				out = append(out, rowText(fr))
@@ -442,6 +448,36 @@ func (sc *Scenario) soilCSV() string {
 			names[at] = extra
 			for _, r := range rows {
 				r[extra] = pickS(rs, []string{"Ap", "77", "x", "6.5"})
+			}
+		}
+	}
+	// a quarter of the files also keep the columns of the classic fixed-width soil file they were converted from, or columns in
+	// a near spelling of the documented names (another tool's export), next to the documented ones and holding other numbers:
+	// the reader binds the documented names only, whatever else the header holds
+	if rn := NewRng(mix(mix(sc.Seed, uint64(sc.Index)), 9595)); rn.Bool(0.25) || sc.SoilClassicCols {
+		block := []string{"Corg", "Te", "lb", "B", "St", "Hy", "Rd", "NuHo", "FC", "WP", "PS", "S%", "SI%", "C%", "lamda", "DraiT", "Drai%", "GW", "LBG"}
+		if rn.Bool(0.4) && !sc.SoilClassicCols {
+			block = []string{"c_org", "texture", "SAND", "Bulk Density", "Bulkdensity", "C_org [%]", "Layerdepth", "Field Capacity", "CN", "Drainage", "Clay%", "stone", "GroundWater", "Pore Volume", "WP"}
+		}
+		front := rn.Bool(0.5)
+		for _, extra := range block {
+			if front {
+				names = append([]string{extra}, names...)
+			} else {
+				names = append(names, extra)
+			}
+			for _, r := range rows {
+				r[extra] = pickS(rn, []string{"9.99", "77", "3", "0.5", "55", "12"})
+			}
+		}
+		if front {
+			// the soil id stays the first cell of a row (the rows of a profile are found by it)
+			for k, nm := range names {
+				if nm == "SID" {
+					copy(names[1:k+1], names[:k])
+					names[0] = "SID"
+					break
+				}
 			}
 		}
 	}
